@@ -281,11 +281,25 @@ func main() {
 				}
 			}
 		}
+		// imports are the registered files, not placeholders left behind by an initialisation-order accident
+		for i := 0; i < fd.Imports().Len(); i++ {
+			imp := fd.Imports().Get(i)
+			h.Eval(true, hz.Hash("C19import", fname, imp.Path()))
+			if imp.IsPlaceholder() {
+				viol("placeholder-import", fname, fname+"->"+imp.Path(), fmt.Sprintf("the descriptor registered for %s holds a placeholder for its import %s (the imported file was not resolved when the file was built)", fname, imp.Path()), "")
+			} else if reg, err := protoregistry.GlobalFiles.FindFileByPath(imp.Path()); err != nil || reg != imp.FileDescriptor {
+				viol("placeholder-import", fname, fname+"->"+imp.Path(), fmt.Sprintf("import %s of %s is not the file the registry holds under that path (err %v)", imp.Path(), fname, err), "")
+			}
+		}
 		// (b) registries, types
 		for _, md := range allMessages(fd) {
 			checkMessageType(h, fname, md, viol)
+			checkFieldTypes(h, fname, md, viol)
 			if pulsar[md.FullName()] {
-				checkValues(h, fname, md, viol)
+				md := md
+				if p := hz.Catch(func() { checkValues(h, fname, md, viol) }); p != nil {
+					viol("panic", fname, string(md.FullName()), fmt.Sprintf("getter / Reset / String checks on %s panicked (protobuf-go cannot work with the registered descriptors): %v", md.FullName(), p), "")
+				}
 			}
 		}
 		for _, ed := range allEnums(fd) {
@@ -362,6 +376,40 @@ func checkMessageType(h *hz.H, fname string, md protoreflect.MessageDescriptor, 
 	})
 	if p != nil {
 		viol("panic", fname, name, fmt.Sprintf("type checks on %s panicked: %v", name, p), "")
+	}
+}
+
+// checkFieldTypes: the message / enum descriptor a field reports is the very one the registry holds.
+func checkFieldTypes(h *hz.H, fname string, md protoreflect.MessageDescriptor, viol violFn) {
+	fs := md.Fields()
+	for i := 0; i < fs.Len(); i++ {
+		fd := fs.Get(i)
+		var d protoreflect.Descriptor
+		var placeholder bool
+		switch {
+		case fd.Message() != nil:
+			d, placeholder = fd.Message(), fd.Message().IsPlaceholder()
+		case fd.Enum() != nil:
+			d, placeholder = fd.Enum(), fd.Enum().IsPlaceholder()
+		default:
+			continue
+		}
+		if fd.IsMap() {
+			continue // the synthetic entry message; its value field is reached through MapValue below
+		}
+		h.Eval(true, hz.Hash("C19fieldtype", string(fd.FullName())))
+		if placeholder {
+			viol("placeholder-field-type", fname, string(fd.FullName()), fmt.Sprintf("field %s reports a placeholder for its type %s instead of the registered descriptor", fd.FullName(), d.FullName()), "")
+			continue
+		}
+		if reg, err := protoregistry.GlobalFiles.FindDescriptorByName(d.FullName()); err != nil || reg != d {
+			viol("field-type-identity", fname, string(fd.FullName()), fmt.Sprintf("the type descriptor of field %s (%s) is not the one the registry holds under that name (err %v)", fd.FullName(), d.FullName(), err), "")
+		}
+	}
+	for i := 0; i < md.Messages().Len(); i++ {
+		if nm := md.Messages().Get(i); nm.IsMapEntry() {
+			checkFieldTypes(h, fname, nm, viol)
+		}
 	}
 }
 
